@@ -49,7 +49,7 @@ func secToml(w, r string) string {
 }
 
 func TestMain(m *testing.M) {
-	vlib.Rule("C34: per case three blobs (A, its sub-file A_1, an unrelated B) on a volume server with {write key only | write + read key}; 4-10 requests, each = method {POST, PUT, DELETE, GET, HEAD} x URL form {/vid,fid | .ext | _n suffix | /vid/fid | /vid/fid/name | 0-padded vid | padded/upper-case fid | file name carrying another file id | wrong cookie} x token class {valid HS256/384/512, GenJwt, master-issued, no exp, expired, nbf in future, iat in future, wrong key, the other configured key, empty key, alg none, RS256 (real and HMAC-signed), flipped signature, swapped payload, malformed, missing} x token subject {this file, other file, same key other cookie, other volume, with suffix, formatting variants} x placement {Authorization header, ?jwt=, both}. After every request all three blobs are read back. Oracle: a blob may change / be returned only if the relevant key is unset or a time-valid HMAC token under that key names it (sub-file suffix ignored); canonical requests with such a token must take effect; everything else must be refused without any change. Non-trivial = a request with a non-valid token class (or a token for another file) against a configured key.")
+	vlib.Rule("C34: per case three blobs (A, its sub-file A_1, an unrelated B) on a volume server with {write key only | write + read key}; 4-10 requests, each = method {POST, PUT, DELETE, GET, HEAD} x URL form {/vid,fid | .ext | _n suffix | /vid/fid | /vid/fid/name | 0-padded vid | padded/upper-case fid | file name carrying another file id | wrong cookie} x token class {valid HS256/384/512, GenJwt, master-issued, no exp, expired, nbf in future, iat in future, wrong key, the other configured key, empty key, alg none, RS256 (real and HMAC-signed), flipped signature, swapped payload, malformed, missing} x token subject {this file, other file, same key other cookie, other volume, with suffix, formatting variants} x placement {Authorization header, ?jwt=, both}; one request in three re-presents a token string the server has already seen in the session (control-read tokens, upload tokens, tokens of earlier requests) on another operation, mostly on the file it names; a fixed 24-step re-presentation sequence (read-key token on GET/HEAD then on POST/PUT/DELETE, write-key token on uploads then on reads, tokens of the other file) runs per blob, valid class and configuration. After every request all three blobs are read back. Oracle: a blob may change / be returned only if the relevant key is unset or a time-valid HMAC token under that key names it (sub-file suffix ignored); canonical requests with such a token must take effect; everything else must be refused without any change. Non-trivial = a request with a non-valid token class (or a token for another file) against a configured key.")
 	vlib.Assume("weed binary built from /repo's working tree; keys are set through security.toml in each child's working directory; token lifetimes are generated at least one hour away from the clock, no boundary cases in time; the RS256 attack key is generated per process with crypto/rand (its value does not influence any verdict)")
 	vlib.Main(m)
 }
@@ -326,6 +326,56 @@ type world struct {
 	vaddr string
 	blobs []*blob // A, A1, B
 	seq   int
+	pool  []minted // token strings already presented to this server in this session
+}
+
+// minted is a token string together with what the harness knows about it,
+// independent of the request it was first made for: the key it is really signed
+// with and its verdict under that key. Re-presenting it on another operation
+// changes nothing about the token, only which key the server must check it with.
+type minted struct {
+	tok        string
+	claim      string
+	class      string
+	signedWith string     // "" = not signed with any configured key
+	base       tokVerdict // verdict when the server checks it with signedWith
+}
+
+// mint builds a token like makeToken and records the key it is really signed with.
+func mint(class, fid, key, otherKey string, salt int) minted {
+	tok, v := makeToken(class, fid, key, otherKey, salt)
+	m := minted{tok: tok, claim: fid, class: class, signedWith: key, base: v}
+	switch class {
+	case "other-configured-key":
+		// a perfectly good token of the other key
+		m.signedWith, m.base = otherKey, tokValid
+		if otherKey == "" {
+			m.signedWith = readKey
+		}
+	case "wrong-key", "key-prefix", "key-extended", "empty-key":
+		m.signedWith, m.base = "", tokInvalid
+	}
+	return m
+}
+
+// verdictFor: the verdict of a minted token when the server must use key.
+func (m minted) verdictFor(key string) tokVerdict {
+	if key == "" || m.signedWith != key {
+		return tokInvalid
+	}
+	return m.base
+}
+
+func (w *world) remember(m minted) {
+	if m.tok == "" {
+		return
+	}
+	for _, p := range w.pool {
+		if p.tok == m.tok {
+			return
+		}
+	}
+	w.pool = append(w.pool, m)
 }
 
 func (w *world) url(path string) string { return "http://" + w.vaddr + path }
@@ -334,8 +384,9 @@ func (w *world) url(path string) string { return "http://" + w.vaddr + path }
 func (w *world) read(t interface{ Fatalf(string, ...any) }, b *blob) (present bool, body []byte) {
 	h := map[string]string{}
 	if w.cfg.readKey != "" {
-		tok, _ := makeToken("valid-no-exp", b.id.String(), w.cfg.readKey, "", 0)
-		h["Authorization"] = "Bearer " + tok
+		m := mint("valid-no-exp", b.id.String(), w.cfg.readKey, "", 0)
+		w.remember(m)
+		h["Authorization"] = "Bearer " + m.tok
 	}
 	code, _, body, err := vlib.Do("GET", w.url("/"+b.id.String()), h, nil)
 	if err != nil {
@@ -426,6 +477,8 @@ type request struct {
 	// second token when two are sent
 	verdict2 tokVerdict
 	two      bool
+	// for a re-presented token: the key it is really signed with
+	reusedKey string
 }
 
 var urlForms = []string{"canonical", "canonical", "canonical", "ext", "suffix", "slash", "slash-name", "padded-vid", "padded-fid", "upper-fid", "comma-name", "wrong-cookie"}
@@ -534,9 +587,26 @@ func isWrite(method string) bool { return method == "POST" || method == "PUT" ||
 
 func (w *world) genRequest(t *rapid.T) *request {
 	rq := &request{headers: map[string]string{}}
-	rq.method = rapid.SampledFrom([]string{"POST", "POST", "POST", "PUT", "DELETE", "DELETE", "GET", "GET", "GET", "HEAD"}).Draw(t, "method")
+	rq.method = rapid.SampledFrom([]string{"POST", "POST", "PUT", "PUT", "DELETE", "DELETE", "GET", "GET", "GET", "HEAD"}).Draw(t, "method")
 	ti := rapid.IntRange(0, 2).Draw(t, "target")
 	rq.form = rapid.SampledFrom(urlForms).Draw(t, "form")
+	// re-present a token string this server has already seen in this session (control-read
+	// tokens, upload tokens, tokens of earlier requests), usually on the file it names
+	var reused *minted
+	if len(w.pool) > 0 && rapid.IntRange(0, 2).Draw(t, "reuseToken") == 0 {
+		m := w.pool[rapid.IntRange(0, len(w.pool)-1).Draw(t, "pooled")]
+		reused = &m
+		if rapid.IntRange(0, 3).Draw(t, "reuseOnNamedFile") != 0 {
+			for i, b := range w.blobs {
+				if b.id.String() == m.claim {
+					ti, rq.form = i, "canonical"
+					if i == 0 && rapid.IntRange(0, 3).Draw(t, "viaSuffix") == 0 {
+						ti, rq.form = 1, "suffix"
+					}
+				}
+			}
+		}
+	}
 	if rq.form == "comma-name" && rq.method != "GET" && rq.method != "HEAD" && rq.method != "DELETE" && vlib.Known(keyLastComma) {
 		vlib.Excluded(keyLastComma)
 		rq.form = "slash-name"
@@ -555,17 +625,37 @@ func (w *world) genRequest(t *rapid.T) *request {
 	if signKey == "" {
 		signKey = "no-read-key-configured"
 	}
-	rq.class = rapid.SampledFrom(tokenClasses).Draw(t, "tokenClass")
-	rq.subject = rapid.SampledFrom(subjects).Draw(t, "subject")
-	rq.claim = w.subjectClaim(t, rq.subject, rq)
 	salt := rapid.IntRange(0, 1<<20).Draw(t, "salt")
 	var tok string
-	tok, rq.verdict = makeToken(rq.class, rq.claim, signKey, other, salt)
+	if reused != nil {
+		rq.class, rq.subject, rq.claim = "reused:"+reused.class, "as-minted", reused.claim
+		tok, rq.verdict = reused.tok, reused.verdictFor(key)
+		rq.reusedKey = reused.signedWith
+	} else {
+		rq.class = rapid.SampledFrom(tokenClasses).Draw(t, "tokenClass")
+		rq.subject = rapid.SampledFrom(subjects).Draw(t, "subject")
+		rq.claim = w.subjectClaim(t, rq.subject, rq)
+		m := mint(rq.class, rq.claim, signKey, other, salt)
+		tok, rq.verdict = m.tok, m.base
+		if m.signedWith != signKey {
+			rq.verdict = m.verdictFor(signKey)
+		}
+		w.remember(m)
+	}
 	rq.placement = rapid.SampledFrom([]string{"bearer", "bearer", "BEARER", "query", "query", "both-query-bad", "both-header-bad"}).Draw(t, "placement")
 	if tok == "" {
 		rq.placement = "none"
 	}
 	bad, _ := makeToken("wrong-key", rq.claim, signKey, other, salt)
+	w.attach(rq, tok, bad)
+	if rq.method == "POST" || rq.method == "PUT" {
+		rq.body = w.newContent(rapid.Uint32().Draw(t, "contentSeed"), rapid.IntRange(8, 200).Draw(t, "contentLen"))
+	}
+	return rq
+}
+
+// attach puts the token(s) on the request according to rq.placement.
+func (w *world) attach(rq *request, tok, bad string) {
 	switch rq.placement {
 	case "bearer":
 		rq.headers["Authorization"] = "Bearer " + tok
@@ -582,14 +672,26 @@ func (w *world) genRequest(t *rapid.T) *request {
 		rq.headers["Authorization"] = "Bearer " + bad
 		rq.two, rq.verdict2 = true, tokInvalid
 	}
-	if rq.method == "POST" || rq.method == "PUT" {
-		rq.body = w.newContent(rapid.Uint32().Draw(t, "contentSeed"), rapid.IntRange(8, 200).Draw(t, "contentLen"))
-	}
-	return rq
 }
 
 func (rq *request) String() string {
-	return fmt.Sprintf("%s %s [form=%s token=%s subject=%s(%q) via %s]", rq.method, rq.path, rq.form, rq.class, rq.subject, rq.claim, rq.placement)
+	extra := ""
+	if strings.HasPrefix(rq.class, "reused:") {
+		extra = " signed-with=" + keyName(rq.reusedKey)
+	}
+	return fmt.Sprintf("%s %s [form=%s token=%s%s subject=%s(%q) via %s]", rq.method, rq.path, rq.form, rq.class, extra, rq.subject, rq.claim, rq.placement)
+}
+
+func keyName(k string) string {
+	switch k {
+	case writeKey:
+		return "write-key"
+	case readKey:
+		return "read-key"
+	case "":
+		return "no-configured-key"
+	}
+	return "other-key"
 }
 
 type expectation int
@@ -844,6 +946,9 @@ func newWorld(t interface{ Fatalf(string, ...any) }, cfg config, withA1 bool, us
 	}
 	put(w.blobs[0], "/"+fa.String(), tokA)
 	put(w.blobs[2], "/"+fb.String(), tokB)
+	// both are time-valid write-key tokens (master-issued or harness-made) the server has now verified
+	w.remember(minted{tok: tokA, claim: fa.String(), class: "initial-upload-token", signedWith: writeKey, base: tokValid})
+	w.remember(minted{tok: tokB, claim: fb.String(), class: "initial-upload-token", signedWith: writeKey, base: tokValid})
 	if withA1 {
 		// the documented way: the token for A covers A_1
 		put(w.blobs[1], "/"+fa.String()+"_1", tokA)
@@ -962,6 +1067,66 @@ func TestPropTokenMatrixExhaustive(t *testing.T) {
 		}
 	}
 	vlib.Exhaustive("token-class x method x placement x subject x configuration on canonical URLs", true)
+}
+
+// mkRequest presents an already minted token string on a canonical URL of blob ti.
+func (w *world) mkRequest(method string, ti int, m minted, placement string, seed uint32) *request {
+	b := w.blobs[ti]
+	rq := &request{method: method, form: "canonical", target: ti, suffixN: -1, class: "reused:" + m.class, subject: "as-minted", claim: m.claim,
+		placement: placement, headers: map[string]string{}, reusedKey: m.signedWith}
+	rq.path, rq.cmpString = "/"+b.id.String(), b.id.String()
+	key := writeKey
+	if !isWrite(method) {
+		key = w.cfg.readKey
+	}
+	rq.verdict = m.verdictFor(key)
+	w.attach(rq, m.tok, "")
+	if method == "POST" || method == "PUT" {
+		rq.body = w.newContent(seed, 24)
+	}
+	return rq
+}
+
+// The same token strings presented again and again on different operations of the
+// same server process: a read-key token first honoured on GET/HEAD and then shown on
+// POST/PUT/DELETE, a write-key token first honoured on an upload and then shown on
+// reads, tokens for the other file. The verdict of every single request is the
+// unchanged per-request oracle; only the history differs.
+func TestPropTokenReuseSequences(t *testing.T) {
+	type st struct {
+		method string
+		tok    string // R, W: read-/write-key token for the target; Ro, Wo: for the other blob
+	}
+	seq := []st{{"GET", "R"}, {"HEAD", "R"}, {"POST", "R"}, {"PUT", "R"}, {"DELETE", "R"}, {"POST", "W"}, {"GET", "W"}, {"HEAD", "W"}, {"GET", "R"},
+		{"PUT", "W"}, {"PUT", "R"}, {"DELETE", "R"}, {"GET", "Ro"}, {"GET", "Wo"}, {"POST", "Wo"}, {"PUT", "Ro"}, {"DELETE", "Wo"}, {"DELETE", "W"},
+		{"GET", "R"}, {"POST", "R"}, {"PUT", "R"}, {"POST", "W"}, {"DELETE", "R"}, {"GET", "W"}}
+	idx := 0
+	for _, cfg := range configs {
+		for _, class := range []string{"valid-hs256-exp", "valid-no-exp", "valid-genjwt"} {
+			for ti := 0; ti < 3; ti++ {
+				idx++
+				if !vlib.ShardOwns(idx) {
+					continue
+				}
+				w := newWorld(t, cfg, true, idx%2 == 0)
+				b, o := w.blobs[ti], w.blobs[(ti+1)%3]
+				toks := map[string]minted{
+					"R":  mint(class, b.id.String(), readKey, writeKey, idx),
+					"W":  mint(class, b.id.String(), writeKey, readKey, idx),
+					"Ro": mint(class, o.id.String(), readKey, writeKey, idx),
+					"Wo": mint(class, o.id.String(), writeKey, readKey, idx),
+				}
+				for i, s := range seq {
+					rq := w.mkRequest(s.method, ti, toks[s.tok], []string{"bearer", "query"}[i%2], uint32(idx*100+i))
+					line, oc := w.step(t, rq)
+					keySet := isWrite(s.method) || cfg.readKey != ""
+					vlib.Case(fmt.Sprintf("[%s] step %d of the reuse sequence on %s: %s", cfg.name, i, b.name, line), keySet && (rq.verdict != tokValid || rq.claim != rq.cmpString),
+						"reuse-seq-"+oc, "reuse-seq:"+s.method+"-with-"+s.tok)
+				}
+			}
+		}
+	}
+	vlib.Exhaustive("24-step token re-presentation sequence x 3 blobs x 3 valid token classes x 2 configurations", true)
 }
 
 // ---------------------------------------------------------------- findings
